@@ -8,17 +8,25 @@
    harness); the clean-up steps it takes are the library functions the harness does drive. *)
 EXTENDS Authority
 
-CONSTANTS Clients
+CONSTANTS Clients,
+          GraceTimer  \* how the client decides that a half-written lock has been there for the grace period (1 s):
+                      \*  "oracle"   : abstraction - exactly when its creator is dead
+                      \*  "observer" : as implemented - lock_invalid_since starts at the first unreadable lock the client sees and
+                      \*               is reset only by a readable lock, a meta file or an absent lock (finding D9d)
+                      \*  "file"     : the timer is restarted when the unreadable file is not the one it was started on
 VARIABLES cpc,      \* [Clients -> program counter]
           cexp,     \* [Clients -> owner the cleanup expects]
           attached, \* [Clients -> owner it attached to, or NoOne]
-          spawned   \* servers that have been started (a server only runs once it is spawned)
-cvars == <<cpc, cexp, attached, spawned>>
+          spawned,  \* servers that have been started (a server only runs once it is spawned)
+          armed     \* [Clients -> the half-written lock the grace timer was started on, or AbsentF]
+cvars == <<cpc, cexp, attached, spawned, armed>>
 allvars == <<vars, cvars>>
 
 CInit == /\ Init
          /\ cpc = [c \in Clients |-> "k_meta"] /\ cexp = [c \in Clients |-> NoOne]
          /\ attached = [c \in Clients |-> NoOne] /\ spawned = {}
+         /\ armed = [c \in Clients |-> AbsentF]
+Disarm(c) == armed' = [armed EXCEPT ![c] = AbsentF]
 CGoto(c, l) == cpc' = [cpc EXCEPT ![c] = l]
 Keep == UNCHANGED <<start, pc, exp, holds, serving, retries, result>>
 
@@ -31,14 +39,25 @@ KMeta(c) ==
          THEN cexp' = [cexp EXCEPT ![c] = meta[2]] /\ CGoto(c, "ks_check") /\ UNCHANGED attached
          ELSE IF meta # AbsentF THEN CGoto(c, "k_meta") /\ UNCHANGED <<cexp, attached>>     \* authority starting / hung: wait
          ELSE CGoto(c, "k_lock") /\ UNCHANGED <<cexp, attached>>
+  /\ IF meta # AbsentF THEN Disarm(c) ELSE UNCHANGED armed
   /\ UNCHANGED <<lock, meta, stolen, spawned>> /\ Keep
 \* no meta: look at the lock
+\* A live creator writes its record within the grace period, so a timer started on a file whose live creator has still not
+\* written cannot have run out; in every other case it may have (taken as: it has - waiting longer is the same as polling later).
 KLock(c) ==
   /\ cpc[c] = "k_lock"
-  /\ CASE lock = AbsentF -> CGoto(c, "k_spawn") /\ UNCHANGED cexp
-       [] lock[1] = "partial" -> (IF IsDead(lock[2]) THEN CGoto(c, "kc_check") ELSE CGoto(c, "k_meta")) /\ UNCHANGED cexp
-       [] lock[1] = "full" -> IF IsDead(lock[2]) THEN cexp' = [cexp EXCEPT ![c] = lock[2]] /\ CGoto(c, "ks_check")
-                                                 ELSE CGoto(c, "k_meta") /\ UNCHANGED cexp
+  /\ CASE lock = AbsentF -> CGoto(c, "k_spawn") /\ UNCHANGED cexp /\ Disarm(c)
+       [] lock[1] = "partial" /\ GraceTimer = "oracle" ->
+            (IF IsDead(lock[2]) THEN CGoto(c, "kc_check") ELSE CGoto(c, "k_meta")) /\ UNCHANGED <<cexp, armed>>
+       [] lock[1] = "partial" /\ GraceTimer # "oracle" ->
+            IF armed[c] = AbsentF \/ (GraceTimer = "file" /\ armed[c] # lock)
+              THEN armed' = [armed EXCEPT ![c] = lock] /\ CGoto(c, "k_meta") /\ UNCHANGED cexp
+              ELSE IF armed[c] = lock /\ Live(lock[2])
+                THEN CGoto(c, "k_meta") /\ UNCHANGED <<cexp, armed>>
+                ELSE cexp' = [cexp EXCEPT ![c] = lock[2]] /\ CGoto(c, "kc_check") /\ UNCHANGED armed
+       [] lock[1] = "full" -> /\ Disarm(c)
+                              /\ IF IsDead(lock[2]) THEN cexp' = [cexp EXCEPT ![c] = lock[2]] /\ CGoto(c, "ks_check")
+                                                    ELSE CGoto(c, "k_meta") /\ UNCHANGED cexp
   /\ UNCHANGED <<lock, meta, stolen, attached, spawned>> /\ Keep
 \* spawn a server process (500 ms cool-down: at most one per client here)
 KSpawn(c) ==
@@ -46,7 +65,7 @@ KSpawn(c) ==
   /\ \/ \E p \in Procs \ spawned : spawned' = spawned \cup {p}
      \/ spawned = Procs /\ UNCHANGED spawned
   /\ CGoto(c, "k_meta")
-  /\ UNCHANGED <<lock, meta, stolen, cexp, attached>> /\ Keep
+  /\ UNCHANGED <<lock, meta, stolen, cexp, attached, armed>> /\ Keep
 \* try_cleanup_stale_authority_files(meta.pid | lock.pid): the same file-system steps as the server's
 KSCheck(c) ==
   /\ cpc[c] = "ks_check"
@@ -55,35 +74,38 @@ KSCheck(c) ==
        ELSE IF lock = AbsentF /\ ~OrphanMetaKept /\ meta = Meta(cexp[c])
          THEN meta' = AbsentF /\ CGoto(c, "k_meta")
          ELSE CGoto(c, "k_meta") /\ UNCHANGED meta
-  /\ UNCHANGED <<lock, stolen, cexp, attached, spawned>> /\ Keep
+  /\ UNCHANGED <<lock, stolen, cexp, attached, spawned, armed>> /\ Keep
 KSRename(c) ==
   /\ cpc[c] = "ks_rename"
   /\ IF lock = AbsentF \/ (~AsImplemented /\ lock # Full(cexp[c]))
        THEN CGoto(c, "k_meta") /\ UNCHANGED <<lock, stolen>>
        ELSE lock' = AbsentF /\ stolen' = Steal(c, "lock", lock, "ClientStaleRename") /\ CGoto(c, "ks_mread")
-  /\ UNCHANGED <<meta, cexp, attached, spawned>> /\ Keep
+  /\ UNCHANGED <<meta, cexp, attached, spawned, armed>> /\ Keep
 KSMetaRead(c) ==
   /\ cpc[c] = "ks_mread"
   /\ IF meta # AbsentF /\ meta[2] = cexp[c] THEN CGoto(c, "ks_mrename") ELSE CGoto(c, "k_meta")
-  /\ UNCHANGED <<lock, meta, stolen, cexp, attached, spawned>> /\ Keep
+  /\ UNCHANGED <<lock, meta, stolen, cexp, attached, spawned, armed>> /\ Keep
 KSMetaRename(c) ==
   /\ cpc[c] = "ks_mrename"
   /\ IF meta = AbsentF \/ (~AsImplemented /\ meta # Meta(cexp[c]))
        THEN UNCHANGED <<meta, stolen>>
        ELSE meta' = AbsentF /\ stolen' = Steal(c, "meta", meta, "ClientStaleMetaRename")
   /\ CGoto(c, "k_meta")
-  /\ UNCHANGED <<lock, cexp, attached, spawned>> /\ Keep
+  /\ UNCHANGED <<lock, cexp, attached, spawned, armed>> /\ Keep
 \* try_cleanup_corrupt_lock_file
 KCCheck(c) ==
   /\ cpc[c] = "kc_check"
   /\ IF lock # AbsentF /\ (meta = AbsentF \/ (~CorruptIgnoresMeta /\ ~Live(meta[2]))) THEN CGoto(c, "kc_rename") ELSE CGoto(c, "k_meta")
-  /\ UNCHANGED <<lock, meta, stolen, cexp, attached, spawned>> /\ Keep
+  /\ UNCHANGED <<lock, meta, stolen, cexp, attached, spawned, armed>> /\ Keep
+\* the repaired design compares before it renames: with the oracle, "half-written by a dead creator"; otherwise "still the file
+\* the client decided to clean"
 KCRename(c) ==
   /\ cpc[c] = "kc_rename"
-  /\ IF lock = AbsentF \/ (~AsImplemented /\ ~(lock[1] = "partial" /\ IsDead(lock[2])))
-       THEN UNCHANGED <<lock, meta, stolen>>
+  /\ IF lock = AbsentF \/ (~AsImplemented /\ (IF GraceTimer = "oracle" THEN ~(lock[1] = "partial" /\ IsDead(lock[2])) ELSE lock # Partial(cexp[c])))
+       THEN UNCHANGED <<lock, meta, stolen, armed>>
        ELSE /\ lock' = AbsentF /\ stolen' = Steal(c, "lock", lock, "ClientCorruptRename")
             /\ meta' = IF ~CorruptIgnoresMeta /\ meta # AbsentF /\ ~Live(meta[2]) THEN AbsentF ELSE meta
+            /\ Disarm(c)
   /\ CGoto(c, "k_meta")
   /\ UNCHANGED <<cexp, attached, spawned>> /\ Keep
 
